@@ -102,14 +102,15 @@ Definition del_fbk (s : fsm) (off len : Z) : fsm :=
 
 (* _fsm_find_matching_fblock_lw.  After fixes/fsm-alloc-overflow.diff the offset - a locality hint only - is clamped to the
    largest value a block key can hold; before, a hint of 2^32 blocks or more made every lookup fail *)
-Definition find_matching (s : fsm) (off len : Z) : option key :=
-  let off := if fx_hint (vr s) && (off >? FSM_BKEY_MAX) then FSM_BKEY_MAX else off in
+Definition hint_of (s : fsm) (off : Z) : Z := if fx_hint (vr s) && (off >? FSM_BKEY_MAX) then FSM_BKEY_MAX else off.
+Definition fm_lookup (s : fsm) (off len : Z) : option key :=
   if negb (bkey_ok off len) then None else
   let '(lb, ub) := lookup_bounds (len, off) (tree s) None in
   let lkl := match lb with Some k => fst k | None => 0 end in
   let ukl := match ub with Some k => fst k | None => 0 end in
   if lkl =? len then lb else if ukl =? len then ub
   else if lkl >? len then lb else if ukl >? len then ub else None.
+Definition find_matching (s : fsm) (off len : Z) : option key := fm_lookup s (hint_of s off) len.
 
 (* _fsm_set_bit_status_lw; v = bit_status, dry = FSM_BM_DRY_RUN, chk = FSM_BM_STRICT *)
 Definition set_bit_status (s : fsm) (off len : Z) (v dry chk : bool) : Z * fsm :=
